@@ -412,3 +412,56 @@ def config_flow(ctx: Ctx):
               and isinstance(n.value.args[1], ast.Constant) and n.value.args[1].value == 'post_init' for n in walk_local(deco.node))
     yield ctx.ob('SUPPORT.CONFIG-FLOW', okp, deco, deco.node, "post_init = getattr(cls, 'post_init', None)", '' if okp else
                  'the decorator does not pick up the task type\'s post_init method', construct='post-init-lookup')
+
+
+# Module-level mutable containers that exist on purpose, with the reason; anything else that functions write to is
+# process-global state that survives from one run_tasks call (one Lab, one runner) to the next.
+SANCTIONED_GLOBALS = {
+    'runners.process._RUNNER_FORK_MEMORY': 'fork hand-over registry: keyed by a per-runner uuid, entry removed by the runner that created it (C16.FORK-MEMORY)',
+}
+
+
+@rule('SUPPORT.NO-PROCESS-GLOBAL-STATE', ['C01', 'C02', 'C03', 'C04', 'C05', 'C06', 'C08', 'C10', 'C11', 'C16', 'C17'])
+def no_process_global_state(ctx: Ctx):
+    """Scheduler, runner, executor and cache objects are created per run and die with it: no module-level container in lab.py,
+    runners/, cache.py, storage.py, serialization.py or tasks.py is written to by a function (a registry that memoises an
+    executor, a runner or results keeps the first run's configuration - max_workers, context, storage - and its leftovers for
+    every later run in the process)."""
+    n = 0
+    mods = ('lab', 'runners', 'cache', 'storage', 'serialization', 'tasks')
+    for m in ctx.P.modules.values():
+        rel = m.name.split('.', 1)[-1] if '.' in m.name else m.name
+        if not rel.startswith(mods):
+            continue
+        for name, v in m.consts.items():
+            mutable = isinstance(v, (ast.Dict, ast.List, ast.Set, ast.DictComp, ast.ListComp, ast.SetComp)) or \
+                (isinstance(v, ast.Call) and (dotted(v.func) or '').split('.')[-1] in
+                 {'dict', 'list', 'set', 'defaultdict', 'deque', 'OrderedDict', 'Counter', 'WeakValueDictionary', 'WeakKeyDictionary', 'OrderedSet'})
+            if not mutable or name.startswith('__'):
+                continue
+            writers = []
+            for fn in ctx.P.all_functions():
+                if fn.module is not m and name not in fn.module.imports:
+                    continue
+                if ctx.P._is_local_name(name, fn) and not any(isinstance(x, ast.Global) and name in x.names for x in walk_local(fn.node)):
+                    continue
+                for x in walk_local(fn.node):
+                    if isinstance(x, (ast.Assign, ast.AugAssign, ast.Delete)):
+                        tgts = x.targets if isinstance(x, (ast.Assign, ast.Delete)) else [x.target]
+                        if any(isinstance(t, ast.Subscript) and isinstance(t.value, ast.Name) and t.value.id == name for t in tgts):
+                            writers.append((fn, x))
+                    elif isinstance(x, ast.Call) and isinstance(x.func, ast.Attribute) and isinstance(x.func.value, ast.Name) \
+                            and x.func.value.id == name and x.func.attr in MUTATORS_ALL:
+                        writers.append((fn, x))
+            if not writers:
+                continue
+            n += 1
+            key = f'{rel}.{name}'
+            ok = key in SANCTIONED_GLOBALS
+            yield ctx.ob('SUPPORT.NO-PROCESS-GLOBAL-STATE', ok, writers[0][0], writers[0][1], f'module-level `{name}` written by {writers[0][0].short}',
+                         '' if ok else f'`{name}` is a module-level container that `{src(writers[0][1])[:60]}` fills at run time: what one run (one Lab / runner / '
+                         'executor configuration) leaves there is seen by every later run in the process', construct=f'global:{key}')
+    yield ctx.ob('SUPPORT.NO-PROCESS-GLOBAL-STATE', True, None, None, f'{n} written module-level containers', construct='scan', path='labtech/')
+
+
+MUTATORS_ALL = {'append', 'extend', 'insert', 'add', 'update', 'setdefault', 'pop', 'popitem', 'remove', 'discard', 'clear', 'appendleft', 'popleft'}
